@@ -357,6 +357,7 @@ def c17(tier, seed):
             return json.load(open(resf))
         os.makedirs(wd, exist_ok=True)
         tasks = []
+        stim_text = {}
         for ci, (cname, mc, dr, n, fmode) in enumerate(corpora):
             st = P.gen_stimuli(mc)
             lines = open(st['path']).readlines()
@@ -364,6 +365,8 @@ def c17(tier, seed):
                 lines = [lines[i] for i in sorted(rnd.sample(range(len(lines)), n))]
             sf = os.path.join(wd, 'stim%d.txt' % ci)
             open(sf, 'w').writelines(lines)
+            for ln_ in lines:
+                stim_text[(ci, ln_.split(' ', 3)[1])] = ln_.strip()
             for bi, (cxx, std, defs) in enumerate(builds):
                 d = dict(dr)
                 d.update(cxx=cxx, std=std, defs=defs)
@@ -399,7 +402,8 @@ def c17(tier, seed):
                 violations.append(dict(property='C17', check=n, op=a.get('op'), cfg='%s vs %s' % (traces[(ci, 0)][1], traces[(ci, bi)][1]),
                                        k=a.get('k'), fk=a.get('fk'), pre=None, kind='equiv', out=a.get('out'), a=a.get('a'),
                                        extra=dict(ref=ref_lines[ln - 1][:1500], other=oth_lines[ln - 1][:1500] if ln - 1 < len(oth_lines) else None,
-                                                  corpus=corpora[ci][0], id=a.get('id'))))
+                                                  corpus=corpora[ci][0], id=a.get('id'), stimulus=stim_text.get((ci, a.get('id'))),
+                                                  fmode=corpora[ci][4], drv=corpora[ci][2], ref_build=list(builds[0]), other_build=list(builds[bi]))))
         # L1 violations inside any build's trace are C17-relevant only through their own properties; report count
         nprog = sum(t[6] for t in tasks)
         res = dict(lines=compared, ops=compared, restarts=0, skipped=0,
@@ -665,6 +669,8 @@ def mc_impl(tier, seed):
     else:
         insts = [dict(suites.one(N, nothrow=nt, copyable=cp, maxlen=5, maxcnt=3, kinds=((0, 1, 3, 4, 5) if cp else (5,))), Profile='impl')
                  for N in (0, 2, 3) for (nt, cp) in ((True, True), (False, True), (False, False), (True, False))]
+        insts += [dict(suites.one(2, nothrow=False, maxlen=4, maxcnt=2, kinds=(0, 1, 4)), Profile='impl', Pairs=True),
+                  dict(suites.two(2, 2, maxlen=2, maxcap=4, **suites.traits_mc(0, 0, 0, 0)), Profile='impl2', NothrowMove=False, Pairs=True)]
         insts += [dict(suites.two(na, nb, maxlen=3, maxcap=8, **suites.traits_mc(*tr)), Profile='impl2', NothrowMove=nt)
                   for (na, nb) in ((2, 2), (0, 2), (3, 2), (2, 3), (0, 0)) for tr in suites.ALL_TRAITS for nt in (False,)]
     rs = _run_many(P.gen_stimuli, insts, workers=6)
@@ -763,8 +769,50 @@ EXTRA = {
 }
 
 
+def replay_equiv(rec):
+    import jobs as Jb
+    ex = rec['extra']
+    wd = os.path.join(P.CACHE, 'replay', P.sha('equiv', json.dumps(ex, sort_keys=True), time.time()))
+    os.makedirs(wd, exist_ok=True)
+    sf = os.path.join(wd, 'stim.txt')
+    open(sf, 'w').write(ex['stimulus'] + '\n')
+    tr = []
+    for tag, (cxx, std, defs) in (('ref', ex['ref_build']), ('oth', ex['other_build'])):
+        d = dict(ex['drv'])
+        d.update(cxx=cxx, std=std, defs=defs)
+        b = P.build_driver(d)
+        tf = os.path.join(wd, tag + '.ndjson')
+        Jb.run_driver(b['exe'], sf, tf, ex['fmode'])
+        tr.append(tf)
+    viol, hits, notes = _equiv(tr[0], tr[1], wd, 'e')
+    if viol:
+        print('VIOLATION property=C17 replay=(this file) check="%s" (%d differing lines; traces %s %s)' % (viol[0][2], len(viol), tr[0], tr[1]))
+        return 1
+    print('not reproduced: C17 equivalence holds for this stimulus (%d call results compared)' % hits)
+    return 0
+
+
+def replay_cx(rec):
+    ex = rec['extra']
+    NA, NB, elem, cxx, std = ex['task']
+    wd = os.path.join(P.CACHE, 'replay', P.sha('cx', json.dumps(ex, sort_keys=True), time.time()))
+    os.makedirs(wd, exist_ok=True)
+    line = ex['program'] if ex['program'].startswith('S ') else 'S p0 0 | ' + ex['program']
+    r = cx_run(('replay', [line + '\n'], NA, NB, elem, cxx, std, wd))
+    same = [v for v in r['violations'] if v['check'] == rec['check']]
+    if same:
+        print('VIOLATION property=C08 replay=(this file) check="%s" %s' % (rec['check'], json.dumps(same[0]['extra'])[:500]))
+        return 1
+    print('not reproduced: %s (other C08 verdicts on this program: %s)' % (rec['check'], sorted({v['check'] for v in r['violations']})))
+    return 0
+
+
 def replay(rec):
     """Re-generate the fact behind a recorded violation and validate it again."""
+    if rec.get('kind') == 'equiv':
+        return replay_equiv(rec)
+    if rec.get('kind') == 'cx':
+        return replay_cx(rec)
     ex = rec['extra']
     gen = ex['gen']
     kind = gen['kind']
